@@ -422,6 +422,12 @@ impl GwWorld {
                 Ok(Ok(Ok(e))) => (format!("ok U{e}"), String::new()),
                 _ => ("err".into(), String::new()),
             },
+            "gw.upgrade_migrate" => {
+                let gw = self.gw.clone().unwrap();
+                let r = upgrade_migrate(&env, &gw, t[1]);
+                let _ = self.events();
+                r
+            }
             "gw.owner" => match guarded(|| self.client().try_owner()) {
                 Ok(Ok(Ok(a))) => (format!("ok {}", Addr::from_sdk(&a).tok()), String::new()),
                 _ => ("err".into(), String::new()),
